@@ -315,8 +315,8 @@ let spec fs obs = match fs with
              | Tok "O" -> OOffer | Tok "F" -> OFail | Tok "S" -> OSwitch | Tok "U" -> OUnm | Tok _ -> OX) toks in
          let bad = ref [] in
          if not (spec_ok_C17 sc o.o_certfile o.o_tlsinit otoks) then bad := ["C17-observation"];
-         (try bad := !bad @ simple_check o items toks hand with Not_simple -> ());
-         if !bad = [] then "ok" else "bad:" ^ String.concat "," !bad
+         let simple = (try bad := !bad @ simple_check o items toks hand; true with Not_simple -> false) in
+         if !bad = [] then (if simple then "ok+trace" else "ok") else "bad:" ^ String.concat "," !bad
        with Bad_case -> "pre")
   | _ -> "BADCASE"
 
